@@ -211,8 +211,14 @@ serde_case!(c15_serde_bytes_borrowed, Bytes, 2, 2, None, false);
 serde_case!(c15_serde_bytes_seq_none, Bytes, 3, 2, None, false);
 // @h props=C15 tier=quick group=serde note=Bytes_visit_seq_hint_exact
 serde_case!(c15_serde_bytes_seq_exact, Bytes, 3, 2, Some(2), false);
-// @h props=C15 tier=thorough group=serde note=Bytes_visit_seq_hint_zero_but_three_elements
+// @h props=C15 tier=quick group=serde note=Bytes_visit_seq_hint_zero_but_three_elements
 serde_case!(c15_serde_bytes_seq_zero, Bytes, 3, 3, Some(0), false);
+// @h props=C15 tier=quick group=serde note=Bytes_visit_seq_hint_under-reports(1_of_3)
+serde_case!(c15_serde_bytes_seq_under, Bytes, 3, 3, Some(1), false);
+// @h props=C15 tier=quick group=serde note=Bytes_visit_seq_hint_over-reports(usize::MAX)
+serde_case!(c15_serde_bytes_seq_over, Bytes, 3, 2, Some(usize::MAX), false);
+// @h props=C15 tier=quick group=serde note=BytesMut_visit_seq_hint_under-reports(1_of_3)
+serde_case!(c15_serde_mut_seq_under, BytesMut, 3, 3, Some(1), false);
 // @h props=C15 tier=quick group=serde note=Bytes_visit_str
 serde_case!(c15_serde_bytes_str, Bytes, 4, 3, None, true);
 // @h props=C15 tier=quick group=serde note=Bytes_visit_string
